@@ -134,15 +134,32 @@ Theorem C09_cache_key_collision_refuted :
 Proof. exact (conj collision_not_free collision_witness). Qed.
 Print Assumptions C09_cache_key_collision_refuted.
 
-(* prune_spec / visit_order_irrelevant, PARTIAL: the full statements
-     "after get_versioned_schema v root, a store entry f is its locally pruned
-      content if f is reachable from root through dict values only, and
-      untouched otherwise, whatever the order of visits"
-   are not proved for arbitrary stores.  What is proved instead is their
-   consequence for the generated schema files, for every version:
-   C09_every_annotation_every_version (the result seen through every referrer
-   is the declaratively pruned tree, which does not mention any visit order)
-   and C09_prune_idem (second visits change nothing). *)
+(* [F]+[U] prune_spec / visit_order_irrelevant, PARTIAL in the schema (proved
+   for the generated schema files, root map, EVERY version; not for arbitrary
+   stores): after the pruning traversal, a file of the store is its locally
+   pruned content (Spec.Versioned.lprune: unavailable object-valued entries and
+   list members dropped, references kept or dropped as a whole) if it is
+   reachable from the root's "properties" through object values only, and is
+   untouched otherwise; the root's "properties" is pruned the same way.  The
+   right-hand side mentions no order of visits and no number of visits, so any
+   two traversal orders agree. *)
+Theorem C09_prune_spec_partial :
+  forall (v : num) e,
+    prune_entry v map_entry = Ok e ->
+    e_store e = pruned_store schema_files v map_properties reach_fuel /\ e_root e = spec_root v.
+Proof. exact prune_spec_shipped. Qed.
+Print Assumptions C09_prune_spec_partial.
+
+(* [F] all_blocks_dict_reachable: in the map schema every file that carries an
+   annotation below its root is reached through object values only - this is
+   why files referred to from list members (leader below allOf, style/label
+   below items, symbol below oneOf) are pruned all the same - and there are
+   such files *)
+Theorem C09_all_blocks_dict_reachable :
+  forallb (fun f => negb (file_annotated f) || mem_str f map_reached) map_reached_all = true /\
+  existsb file_annotated map_reached_all = true.
+Proof. exact all_blocks_dict_reachable. Qed.
+Print Assumptions C09_all_blocks_dict_reachable.
 
 (* non-vacuity: at 8.0 the STYLE reached through CLASS -> LEADER (an allOf list
    member the pruning recursion never enters) has lost ANTIALIAS (maxVersion
